@@ -2,14 +2,15 @@
 # Bulk-archives round-2 seeds: /tmp/seed2-Cxx-out/patchN.diff + /tmp/st2-Cxx-patchN.log -> /verif/seeded/Cxx-r2-N/
 # usage: tools/archive_round2.py [Cxx ...]   (default: every seed with a log)
 import sys, os, re, glob, json, shutil
+R = os.environ.get("ROUND", "2")  # ROUND=3 archives /tmp/seed3-*-out with /tmp/st3-*.log as seeded/Cxx-r3-N
 ids = sys.argv[1:]
 base = os.popen("git -C /repo rev-parse --short HEAD").read().strip()
-for log in sorted(glob.glob("/tmp/st2-C*-patch*.log")):
-    m = re.match(r"/tmp/st2-(C\d+)-patch(\d)\.log", log)
+for log in sorted(glob.glob("/tmp/st%s-C*-patch*.log" % R)):
+    m = re.match(r"/tmp/st%s-(C\d+)-patch(\d)\.log" % R, log)
     if not m: continue
     pid, n = m.groups()
     if ids and pid not in ids: continue
-    src = f"/tmp/seed2-{pid}-out"
+    src = f"/tmp/seed{R}-{pid}-out"
     if not os.path.exists(f"{src}/patch{n}.diff"): continue
     txt = open(log).read()
     lines = [l for l in txt.splitlines() if l.startswith("== ")]
@@ -17,7 +18,7 @@ for log in sorted(glob.glob("/tmp/st2-C*-patch*.log")):
     own = [l for l in lines if l.startswith(f"== {pid} ")]
     caught = any("rc=1" in l for l in lines)
     key = re.search(r"key=([^ ]+?):? ", txt)
-    dst = f"/verif/seeded/{pid}-r2-{n}"
+    dst = f"/verif/seeded/{pid}-r{R}-{n}"
     prev = {}
     if os.path.exists(f"{dst}/meta.json"):
         prev = json.load(open(f"{dst}/meta.json"))
@@ -40,7 +41,7 @@ for log in sorted(glob.glob("/tmp/st2-C*-patch*.log")):
     ran = "; ".join(l[:200] for l in lines) + (f" key={key.group(1)}" if key and caught else "")
     if prev.get("status") and prev.get("what_i_ran") != ran:
         hist.append({"status": prev["status"], "what_i_ran": prev.get("what_i_ran")})
-    meta = {"property": pid, "round": 2, "patch": "patch.diff", "needs_to_manifest": needs, "status": status,
+    meta = {"property": pid, "round": int(R), "patch": "patch.diff", "needs_to_manifest": needs, "status": status,
             "what_i_ran": "tools/seedtest.sh %s patch.diff (scratch worktree of /repo HEAD + patch, go build ./..., quick check with VERIF_REPO): %s" % (pid, ran),
             "base_commit": base}
     if caught and key: meta["caught_by"] = f"{pid} quick, key {key.group(1)}"
